@@ -27,6 +27,11 @@ def check(repo: Repo, rep, tier):
     ci_table(repo, rep)
     collect(repo, rep)
     configure(repo, rep)
+    driver_isolate(repo, rep)
+    fresh_state(repo, rep)
+    from .C03 import import_only
+
+    import_only(repo, rep)
 
 
 def steps_of(repo: Repo, key: str) -> Dict[str, list]:
@@ -187,3 +192,61 @@ def collect(repo: Repo, rep):
             rep.violation("R-DRIVER-COLLECT", f, f.node, f"run_inline only executes files matching {p!r}; pytest also collects {miss}: such a module is run by run_pytest / a real session but silently skipped by run_inline", construct=f"glob:{p}")
         else:
             rep.ok("R-DRIVER-COLLECT", f, f.node, f"pattern {p!r} covers pytest's default test files")
+
+
+def driver_isolate(repo: Repo, rep):
+    rep.rule(
+        "R-DRIVER-ISOLATE",
+        "Example.run_inline isolates the tests from each other like pytest does: the call of a collected test function sits in a `try` with an `except "
+        "Exception` handler *inside* the loop over the tests (loop > try > call), so a test that raises does not keep the later tests of the file - and "
+        "their snapshots - from running",
+    )
+    from ..model import ancestors
+
+    f = repo.func("testing/_example.py::Example.run_inline")
+    n = 0
+    for lp in [x for x in body_nodes(f.node) if isinstance(x, ast.For) and isinstance(x.target, ast.Name)]:
+        v = lp.target.id
+        calls = [c for c in ast.walk(lp) if isinstance(c, ast.Call) and isinstance(c.func, ast.Name) and c.func.id == v and not c.args]
+        for c in calls:
+            n += 1
+            chain = []
+            for a in ancestors(c):
+                chain.append(a)
+                if a is lp:
+                    break
+            tries = [a for a in chain if isinstance(a, ast.Try) and any(h.type is None or "Exception" in norm(h.type) for h in a.handlers) and any(c is y for s in a.body for y in ast.walk(s))]
+            if tries:
+                rep.ok("R-DRIVER-ISOLATE", f, c, "each test call is guarded inside the loop")
+            else:
+                rep.violation("R-DRIVER-ISOLATE", f, c, f"`{v}()` is not guarded by a try/except inside the loop over the tests: the first test that raises ends the loop, the remaining tests never run and their pending changes are neither reported nor applied (a real session runs every test)", construct="test-call-unguarded")
+    rep.floor("R-DRIVER-ISOLATE", "test calls in run_inline", n, 1)
+
+
+def fresh_state(repo: Repo, rep):
+    rep.rule(
+        "R-FRESH-STATE",
+        "enter_snapshot_context() starts every (nested) context from the defaults: the value bound to the current-state global is `State()` without "
+        "arguments on every path - not a copy (dataclasses.replace / copy) of the enclosing state, whose `active`, flags and update_flags belong to the "
+        "outer session (run_inline inside a disabled or CI session would silently record nothing while run_pytest and a real session do)",
+    )
+    f = repo.func("_global_state.py::enter_snapshot_context")
+    cfg = cfg_of(f)
+    gl = {nm for s in ast.walk(f.node) if isinstance(s, ast.Global) for nm in s.names}
+    n = 0
+    for a in cfg.stmts(ast.Assign):
+        for t in a.ast.targets:
+            if isinstance(t, ast.Name) and t.id in gl:
+                n += 1
+                vals = []
+                v = a.ast.value
+                if isinstance(v, ast.Name):
+                    vals = [def_value(d, v.id) for d in reaching_defs(cfg, a, v.id)]
+                else:
+                    vals = [v]
+                bad = [x for x in vals if not (isinstance(x, ast.Call) and norm(x.func) == "State" and not x.args and not x.keywords)]
+                if bad:
+                    rep.violation("R-FRESH-STATE", f, a.ast, f"the new context can start from `{short(bad[0], 60) if bad[0] is not None else '?'}` instead of a default State(): it inherits active / flags of the enclosing session", construct="state-not-fresh")
+                else:
+                    rep.ok("R-FRESH-STATE", f, a.ast, "new context = State()")
+    rep.floor("R-FRESH-STATE", "rebinding of the current state", n, 1)
